@@ -241,7 +241,7 @@ StepBusLr(s, b, call) ==
           [] OTHER -> [s1 EXCEPT !.prog = s.prog \cup ItemOfLr(w)]
 
 \* "sx1262-lw" / "sx1276-lw" / "lr1110-lw": the same chips driven through the LoRaWAN radio adapter (lorawan_radio.rs)
-Is127(chip) == chip \in {"sx1276", "sx1276-lw"}
+Is127(chip) == chip \in {"sx1276", "sx1276-lw", "sx1272", "sx1272-lw"}
 IsLr(chip) == chip \in {"lr1110", "lr1110-lw"}
 RECURSIVE RunBus(_, _, _, _, _)
 RunBus(s, bus, i, call, chip) ==
